@@ -512,6 +512,66 @@ def r23(ctx):
     return f, fl, cur
 
 
+def r214(ctx):
+    """The row order handed to find_blocks is the staircase order of the *reach* of each path: the
+    sort keys are functions of the zero pattern of the idle block (W > 0 / W != 0) only, never of the
+    weights' values. (With wire fencing the weights vary along a row; a key computed from values
+    - e.g. argmax of the row itself = position of the largest weight - ties or mis-orders the rows,
+    find_blocks cuts wrong blocks and the permanents are taken of the wrong sub-matrices while row
+    and column sums stay one.)"""
+    rid = "R-2.14"
+    f = ctx.tree.func(REPEX, "REPEX_state.inf_retis")
+    fl = flow_of(f)
+    sort = None
+    for n in walk_local(f):
+        if isinstance(n, ast.Assign) and len(n.targets) == 1 and isinstance(n.targets[0], ast.Name) and isinstance(n.value, ast.Subscript) and isinstance(n.value.slice, ast.Name) and isinstance(n.value.value, ast.Name):
+            idx = n.value.slice.id
+            defs = [d for d in fl.defs if d.path == idx and d.kind == "assign" and d.value is not None]
+            if defs and any("argsort" in ast.unparse(d.value) or "append" in ast.unparse(d.value) or "concatenate" in ast.unparse(d.value) for d in defs):
+                sort = (n, idx, n.value.value.id)
+                break
+    if sort is None:
+        raise AnalysisError("R-2.14: the row sort `sorted = non_locked[sort_idx]` was not found")
+    sn, idx, block = sort
+    closure, work, exprs = {idx}, [idx], []
+    while work:
+        nm = work.pop()
+        for d in fl.defs:
+            if d.path == nm and d.kind in ("assign", "aug") and d.value is not None:
+                exprs.append(d)
+                for x in ast.walk(d.value):
+                    if isinstance(x, ast.Name) and x.id not in closure and x.id != block:
+                        closure.add(x.id)
+                        work.append(x.id)
+    PATTERN_CALLS = {"count_nonzero", "nonzero", "flatnonzero", "sign", "isclose", "any", "all"}
+    n = 0
+    for d in exprs:
+        for x in ast.walk(d.value):
+            if not (isinstance(x, ast.Name) and x.id == block):
+                continue
+            n += 1
+            ok, p_, child = False, getattr(x, "_parent", None), x
+            while p_ is not None and not isinstance(p_, ast.stmt):
+                if isinstance(p_, ast.Compare) and len(p_.ops) == 1 and isinstance(p_.ops[0], (ast.Gt, ast.NotEq, ast.Eq, ast.LtE)) and any(isinstance(o, ast.Constant) and o.value == 0 and not isinstance(o.value, bool) for o in [p_.left] + p_.comparators):
+                    ok = True
+                if isinstance(p_, ast.Call) and isinstance(p_.func, ast.Attribute) and p_.func.attr == "astype" and p_.func.value is child and p_.args and ast.unparse(p_.args[0]) in ("bool", "np.bool_"):
+                    ok = True
+                if isinstance(p_, ast.Call) and last_name(p_) in PATTERN_CALLS and child in p_.args:
+                    ok = True
+                if isinstance(p_, ast.Attribute) and p_.attr in ("shape", "ndim", "size") and p_.value is child:
+                    ok = True
+                if isinstance(p_, ast.Call) and last_name(p_) == "len" and child in p_.args:
+                    ok = True
+                child, p_ = p_, getattr(p_, "_parent", None)
+            if ok:
+                ctx.ok(rid, x, f"sort key `{short(d.value, 60)}` reads the idle block through its zero pattern only")
+            else:
+                ctx.bad(rid, x, f"the row order of the idle block is computed from the *values* of the weights (`{short(d.value, 70)}` reads `{block}` outside a comparison with 0): with weights that vary along a row (wire fencing) the key is the position of the largest weight, not the reach of the path - rows are not brought into staircase order, find_blocks cuts wrong diagonal blocks and P is not W_ij perm(W^ij)/perm(W) although rows and columns still sum to one",
+                        construct=f"inf_retis sort key from weight values: {short(d.value, 60)}")
+    if n == 0:
+        raise AnalysisError("R-2.14: the sort index does not derive from the idle block (cannot decide)")
+
+
 def r24_25(ctx):
     tree = ctx.tree
     f = tree.func(REPEX, "REPEX_state.inf_retis")
@@ -1021,6 +1081,8 @@ def run(ctx):
     ctx.rule("R-2.2", "the getter computes P from the live weight matrix and busy flags and memoises that result", floor=2)
     ctx.rule("R-2.3", "busy rows and columns: one mask from `locks`, idle selector on both axes, zeros re-inserted on both axes at positions counted from the same mask", floor=4)
     ctx.rule("R-2.4", "the row sort is undone through the index array that sorted", floor=1)
+    ctx.rule("R-2.14", "the staircase order of the idle block is computed from its zero pattern only (sort keys read W through W > 0, never the weights' values)", floor=1)
+    ctx.attempt(r214, ctx)
     ctx.rule("R-2.5", "every kernel result is stored to the window it was computed from", floor=5)
     ctx.rule("R-2.6", "permanent_prob: out[i][j] = W[i][j] * kernel(W without row i, column j), skipped only for zero weights, per-row rescaling on a copy", floor=5)
     ctx.attempt(r21, ctx)
@@ -1048,6 +1110,10 @@ def run(ctx):
 
 
 VARIANTS = [
+    B("c02-plus-sort-key-from-weight-values", REPEX, "np.argsort(-1 * np.argmax(non_locked[offset:, ::-1] > 0, axis=1))", "np.argsort(-1 * np.argmax(non_locked[offset:, ::-1], axis=1))", "R-2.14", control=True, why="seeded C02_j"),
+    B("c02-minus-sort-key-from-weight-values", REPEX, "minus_idx = np.argsort(np.argmax(non_locked[:offset] > 0, axis=1))", "minus_idx = np.argsort(np.argmax(non_locked[:offset], axis=1))", "R-2.14"),
+    K("c02-keep-sort-key-nonzero-test", REPEX, "np.argsort(-1 * np.argmax(non_locked[offset:, ::-1] > 0, axis=1))", "np.argsort(-1 * np.argmax(non_locked[offset:, ::-1] != 0, axis=1))", why="weights are non-negative: != 0 is the same pattern"),
+    K("c02-keep-sort-key-pattern-local", REPEX, "        minus_idx = np.argsort(np.argmax(non_locked[:offset] > 0, axis=1))\n        pos_idx = (\n            np.argsort(-1 * np.argmax(non_locked[offset:, ::-1] > 0, axis=1))\n            + offset\n        )", "        reach = non_locked > 0\n        minus_idx = np.argsort(np.argmax(reach[:offset], axis=1))\n        pos_idx = (\n            np.argsort(-1 * np.argmax(reach[offset:, ::-1], axis=1))\n            + offset\n        )"),
     B("c02-sweep-ratios-hoisted", REPEX, "            temp_left = prob_left[temp]\n            temp_right = prob_right[temp]\n", "", "R-2.13", control=True, also=[(REPEX, "        temp = np.where(current_state == 1)\n", "        temp = np.where(current_state == 1)\n        temp_left = prob_left[temp]\n        temp_right = prob_right[temp]\n")], why="seeded C02_i"),
     B("c02-budget-clamped-before-subtraction", REPEX, "            total_traj_prob -= ens\n            # force negative values to 0\n            total_traj_prob[np.where(total_traj_prob < 0)] = 0\n", "            # force negative values to 0\n            total_traj_prob[np.where(total_traj_prob < 0)] = 0\n            total_traj_prob -= ens\n", "R-2.12", control=True, why="seeded C05_k"),
     B("c02-budget-never-clamped", REPEX, "            total_traj_prob[np.where(total_traj_prob < 0)] = 0\n", "", "R-2.12"),
